@@ -280,6 +280,13 @@ func genFaulty(t *rapid.T) pairsim.Scenario {
 	sc.Srv = pairsim.EndCfg{SZX: rapid.IntRange(0, 6).Draw(t, "sszx"), Blockwise: true, Queue: rapid.SampledFrom([]int{0, 1, 16}).Draw(t, "sq"), AckTimeoutMs: 1000, MaxRetransmit: 3}
 	sc.Link = memnet.LinkCfg{LatencyMs: rapid.SampledFrom([]int{1, 1, 5, 40}).Draw(t, "lat"), FaultsAB: genFaults(t, "ab"), FaultsBA: genFaults(t, "ba"), Budget: 600}
 	sc.Srv.GoPool = rapid.IntRange(0, 3).Draw(t, "gopool") == 0 // duplicates and blocks of one transfer processed concurrently
+	// either endpoint may be a connection created by a server (dtls.NewServer / tcp.NewServer)
+	if rapid.IntRange(0, 2).Draw(t, "srvrole") == 0 {
+		sc.Srv.Role = "server"
+	}
+	if rapid.IntRange(0, 3).Draw(t, "clirole") == 0 {
+		sc.Cli.Role = "server"
+	}
 	nops := rapid.SampledFrom([]int{1, 1, 2, 3, 4}).Draw(t, "nops")
 	cs, ss := blockSize(sc.Cli.SZX), blockSize(sc.Srv.SZX)
 	size := func(label string, s int) int {
@@ -291,6 +298,22 @@ func genFaulty(t *rapid.T) pairsim.Scenario {
 		switch op.Kind {
 		case "post", "put":
 			op.Up, op.Down = size("up", cs), size("down", ss)
+			// an upload may be abandoned half-way as well, and a later one may take its token again
+			if rapid.IntRange(0, 5).Draw(t, "cancelup") == 0 {
+				op.CancelMs = rapid.SampledFrom([]int{3, 8, 30}).Draw(t, "cancelupms")
+				op.Async = false
+			}
+			var earlierUp []int
+			for j, o := range sc.Ops {
+				if (o.Kind == "post" || o.Kind == "put") && !o.Async {
+					earlierUp = append(earlierUp, j)
+				}
+			}
+			if len(earlierUp) > 0 && rapid.IntRange(0, 2).Draw(t, "tokrefup") == 0 {
+				op.TokRef = earlierUp[rapid.IntRange(0, len(earlierUp)-1).Draw(t, "tokrefupwhich")] + 1
+				op.Async = false
+				sc.Ops = append(sc.Ops, pairsim.Op{Kind: "sleep", Ms: 6*sc.Link.LatencyMs + 20})
+			}
 		case "get":
 			op.Down = size("down", ss)
 			// a download may be abandoned half-way (cancelled by the caller), and a later download may
@@ -347,6 +370,13 @@ func genTCP(t *rapid.T) pairsim.Scenario {
 	sc.Cli = pairsim.EndCfg{SZX: rapid.IntRange(0, 7).Draw(t, "cszx"), Blockwise: true, Queue: 16, MaxMsg: mm.Draw(t, "cmax")}
 	sc.Srv = pairsim.EndCfg{SZX: rapid.IntRange(0, 7).Draw(t, "sszx"), Blockwise: true, Queue: 16, MaxMsg: mm.Draw(t, "smax")}
 	sc.Stream = memnet.StreamCfg{SegsAB: rapid.SliceOfN(rapid.IntRange(1, 700), 0, 4).Draw(t, "segsAB"), SegsBA: rapid.SliceOfN(rapid.IntRange(1, 700), 0, 4).Draw(t, "segsBA")}
+	// either endpoint may be a connection created by a server (dtls.NewServer / tcp.NewServer)
+	if rapid.IntRange(0, 2).Draw(t, "srvrole") == 0 {
+		sc.Srv.Role = "server"
+	}
+	if rapid.IntRange(0, 3).Draw(t, "clirole") == 0 {
+		sc.Cli.Role = "server"
+	}
 	nops := rapid.IntRange(1, 3).Draw(t, "nops")
 	for i := 0; i < nops; i++ {
 		op := pairsim.Op{Kind: rapid.SampledFrom([]string{"post", "put", "get"}).Draw(t, "kind"), DeadlineMs: 20000, Async: i < nops-1 && rapid.Bool().Draw(t, "async"), ETag: rapid.Bool().Draw(t, "etag")}
